@@ -25,6 +25,20 @@ def enrich(cfg, rng):
     for l in cfg["simulation"]["network"]["links"]:
         if rng.random() < 0.25:
             l["bandwidth"] = rng.choice([2.5, 0.5, 12.75, 100, 1000])
+    hosts = [n for n in cfg["simulation"]["network"]["nodes"] if n["type"] in ("computer", "server")]
+    if len(hosts) >= 2 and rng.random() < 0.6:
+        # one folders block written once and used by several hosts (a YAML anchor / alias gives every user the SAME object):
+        # a file declared by name without extension plus an explicit type
+        shared = [{"folder_name": "shared", "files": [{"file_name": "passwords", "type": "TXT"}, {"file_name": "report.pdf"}]}]
+        for h in rng.sample(hosts, rng.randint(2, min(3, len(hosts)))):
+            h["folders"] = shared
+    for h in hosts:
+        if rng.random() < 0.4:
+            # a host-level DNS server and the host's DNS client re-declared with a server of its own
+            h["dns_server"] = "10.0.1.%d" % rng.randint(50, 59)
+            svcs = h.setdefault("services", [])
+            if not any(x.get("type") == "dns-client" for x in svcs):
+                svcs.append({"type": "dns-client", "options": {"dns_server": "10.0.2.%d" % rng.randint(60, 69)}})
     return cfg
 
 
